@@ -1,6 +1,6 @@
 (* Judges for C06 (model hashes) and C04 (commitment / reveal algebra). *)
 From Coq Require Import ZArith NArith String List Bool.
-From Sidetree Require Import Json.Json Json.Parse Sidetree.Hashing Harness.Runner.
+From Sidetree Require Import Json.Json Json.Parse Json.JcsRoundTrip Sidetree.Hashing Harness.Runner.
 Import ListNotations.
 Open Scope string_scope.
 
@@ -62,7 +62,8 @@ Definition judge_c06 (c : c06case) : verdict :=
       match value_of_text text with
       | None => match ground_truth_checks 1 checks with Pass => OutOfDomain 0 | v => v end
       | Some v =>
-          let m := if (code <? 0)%Z then None else calc_mh v (Z.to_N code) in
+          (* the hashing entry points canonicalize first, and the canonicalizer takes arrays and objects only *)
+          let m := if orb (code <? 0)%Z (negb (is_container v)) then None else calc_mh v (Z.to_N code) in
           if negb (opt_str_eqb m ih) then SpecFail 5
           else if negb (opt_str_eqb (option_map (fun s => "did:ns:" ++ s) m) iid) then SpecFail 6
           else judge_checks 1 checks
@@ -73,7 +74,9 @@ Record link := mk_link { lk_type : string; lk_reveal : option string; lk_next : 
 
 Inductive c04case :=
 | mk_c04key (jwk : json) (code : Z) (rv c cfr : option string) (jwk2 : json) (c2 : option string)
-| mk_c04chain (links : list link).
+| mk_c04chain (links : list link)
+(* a request whose reveal value is not the multihash of the key that signed: the accessors must refuse it *)
+| mk_c04refuse (what : nat) (reveal_refused commitment_refused : bool).
 
 Fixpoint judge_links (idx : nat) (l : list link) : verdict :=
   match l with
@@ -104,4 +107,5 @@ Definition judge_c04 (c : c04case) : verdict :=
            | _, _ => Pass
            end
   | mk_c04chain links => judge_links 0 links
+  | mk_c04refuse w r c => if andb r c then Pass else SpecFail (100 + w)
   end.
